@@ -248,6 +248,8 @@ def tie_sources(name, functions):
         stem = t
     stem = _re.sub(r"^parser_", "", stem)
     hits = [k for k in functions if k.endswith("::" + stem) or k.endswith("::" + stem + "_jsonb")]
+    # a recursive group is ONE block: `src/parser.rs::group parser (parse_json_value, parse_json_array, …)`
+    hits += [k for k in functions if _re.search(r"::(?:group|types)\b.*[(, ]%s[,)]" % _re.escape(stem), k)]
     if not hits and stem.endswith("_fmt"):
         # Display impls: `path_value_fmt` is about `PathValue::fmt`
         want = stem[:-4].replace("_", "")
@@ -259,6 +261,33 @@ def tie_sources(name, functions):
         for e in extra.get(stem, []) + extra.get(name, []):
             hits += [k for k in functions if k.endswith("::" + e)]
     return hits
+
+def stale_closure(gen_dir, unsupported):
+    """the translated blocks whose meaning depends on a block in `unsupported` (declarations whose current source is
+    outside the translators' subset, so that their LAST translation was kept): a block that calls a stale
+    definition is about old code too.  Over-approximation by names (a definition of block A occurring as a token
+    in block B makes B depend on A)."""
+    import re as _re, os as _os
+    blocks = {}
+    for fn in sorted(_os.listdir(gen_dir)):
+        if not _re.match(r"Translated\w*\.lean$", fn):
+            continue
+        for m in _re.finditer(r"^-- BEGIN (.+?)\n(.*?)^-- END ", open(_os.path.join(gen_dir, fn)).read(), _re.S | _re.M):
+            blocks[m.group(1)] = m.group(2)
+    defs = {k: set(_re.findall(r"^\s*(?:partial\s+|private\s+|protected\s+)*(?:def|structure|inductive|abbrev)\s+([\w.']+)", b, _re.M)) for k, b in blocks.items()}
+    toks = {k: set(_re.findall(r"[\w.']+", b)) for k, b in blocks.items()}
+    def uses(b, a):
+        # the translators emit fully qualified calls (`Parser.next self`, `cmp_int_float i f`) in one flat namespace
+        return any(n in toks[b] or ("Tr." + n) in toks[b] or ("Jsonb.Tr." + n) in toks[b] for n in defs[a])
+    stale = {k for k in unsupported if k in blocks}
+    work = list(stale)
+    while work:
+        a = work.pop()
+        for b in blocks:
+            if b not in stale and uses(b, a):
+                stale.add(b); work.append(b)
+    return stale | set(unsupported)
+
 
 TRUSTED_BASE = [
     "Lean 4.33.0 kernel (thorough tier re-checks the theorem module with leanchecker)",
